@@ -95,6 +95,8 @@ def run_case(c):
     obs = {}
     keys = []
     base = run_pat(scn, [["solve"]])
+    if base.fp_exhausted:
+        return {"violations": [], "obs": {"fp_domain_exhausted": 1}, "skip": "fp-domain-exhausted"}
     if base.swallowed or base.aborted:
         viol.append({"mech": "solve-internal-exception", "stdout": base.stdout[-300:]})
     b = glog(base)
@@ -115,6 +117,9 @@ def run_case(c):
             for parts in compositions(j):
                 pat = [["iter", p] for p in parts] + [["solve"]]
                 t = run_pat(scn, pat)
+                if t.fp_exhausted:
+                    obs["fp_domain_exhausted"] = obs.get("fp_domain_exhausted", 0) + 1
+                    continue
                 n += 1
                 if not same_log(b, glog(t)):
                     if len(viol) < 5:
@@ -142,6 +147,9 @@ def run_case(c):
                     parts.append(0)
             pat = [["iter", p] for p in parts] + [["solve"]] + ([["solve"]] if rng.random() < 0.3 else [])
             t = run_pat(scn, pat)
+            if t.fp_exhausted:
+                obs["fp_domain_exhausted"] = obs.get("fp_domain_exhausted", 0) + 1
+                continue
             g = glog(t)
             obs["compositions_random"] = obs.get("compositions_random", 0) + 1
             if 0 in parts:
